@@ -539,6 +539,19 @@ example : (beigenTerms 2 (3 - (-1)) (-(-1)) (1 - (-1))).map (termPdf (fun _ => 1
   (C02_bounded_eigen_ratio_partial (fun _ => 1) (fun z => 1/2 + z/10) (fun _ => rfl) (fun z => by ring)
     (by norm_num) (by norm_num) (by norm_num) (by norm_num) (by norm_num)).1
 
+/-- `BoundedEigenvector._jump` accepts what `__contains__` accepts, and that moves every coordinate
+    within `numpy.isclose` of a bound (`|v - b| ≤ 1e-8 + 1e-5·|b|`) onto the bound first: with a
+    lower bound of 1000 the point 999.995 is accepted although it lies outside the box. The
+    accepted region of the rejection loop is therefore larger than the chord inside the box on
+    which `_logpdf` normalises (`C02_bounded_eigen_ratio_partial` takes the chord as the accepted
+    region): concrete witness of the mismatch the search reports on the real code. -/
+theorem C02_bounded_eigen_band_counterexample :
+    beContains1 1000 1001 (199999/200) = true ∧ (199999/200 : ℚ) < 1000 := by
+  constructor
+  · simp only [beContains1, isClose, Rat.abs]
+    norm_num
+  · norm_num
+
 /-! ## births -/
 
 /-- `UniformBirth`: numpy draws on `[lower, upper)`; scipy's `uniform(loc, scale)` lives on
